@@ -65,6 +65,8 @@ probes! {
     P_RUN_FAULT_ARMED = "run_with_callback_fault_armed";
     P_RUN_FAULT_FIRED = "run_where_armed_fault_fired";
     P_SRC_CONTAINER_FREED = "source_container_block_freed_by_constructor";
+    P_SHARED_CLONE = "clone_through_a_handle_shared_by_reference_between_threads";
+    P_DEP_WRITE_PAR = "deprecated_write_decided_inside_parallel_section";
 }
 
 pub static PROBES: [AtomicU64; NPROBES] = [const { AtomicU64::new(0) }; NPROBES];
